@@ -202,4 +202,30 @@ emit("still alive", G2.name, P1.name, P3.name)`,
 	`local function range(n) local i = 0 return function() i = i + 1 if i <= n then return i, i * i end end end
 local parts = {} for i, sq in range(50) do parts[#parts + 1] = i .. "=" .. sq end emit(#table.concat(parts, ","))
 local s = 0 for k, v in pairs({10, 20, 30, x = 1, y = 2}) do s = s + v end emit(s)`,
+	// errors raised by the close actions of a returning function (a to-be-closed value that lost its __close, a raising
+	// handler), followed by calls that reuse whatever the failed return gave back to the pools
+	`local function f(drop, raise) local mt = {__close = function() emit("closed") if raise then error("in close") end end}
+  local x <close> = setmetatable({}, mt) local y <close> = setmetatable({}, {__close = function() emit("closed y") end})
+  if drop then mt.__close = nil end return 1, 2 end
+local function g(n) local a, b = n, n + 1 if n == 0 then return 0 end return 1 + g(n - 1) + (a - b + 1) end
+emit(pcall(f, false, false)) emit(g(25))
+emit(pcall(f, true, false)) emit(g(30)) emit(pcall(f, false, true)) emit(g(12))
+for i = 1, 5 do local ok, e = pcall(f, i % 2 == 0, i % 3 == 0) emit(ok, type(e), g(i)) end
+local co = coroutine.wrap(function() emit(pcall(f, true, false)) coroutine.yield(g(7)) emit(pcall(f, true, true)) return g(9) end)
+emit(co()) emit(co())`,
+	// chunk loaders reading through the file API, and the budget-metered library paths (their metering is compiled out
+	// under noquotas and must not change what they compute)
+	`local name = os.tmpname() local fh = assert(io.open(name, "w"))
+fh:write("local a, b = ... emit('from file', a, b) return (a or 0) + 41, 'x'") fh:close()
+local chunk, err = loadfile(name) emit(type(chunk), err) if chunk then emit(chunk(1, 2)) end
+emit(pcall(dofile, name))
+local chunk2 = loadfile(name, "t", {emit = emit}) emit(type(chunk2)) if chunk2 then emit(chunk2(5)) end
+local fh2 = assert(io.open(name, "rb")) local all = fh2:read("a") fh2:close() emit(#all, select("#", load(all)))
+local bin = string.dump(load("return 1 + ..., 'bin'")) emit(load(bin, "b", "b")(2))
+local fh3 = assert(io.open(name, "wb")) fh3:write(bin) fh3:close() emit(pcall(dofile, name)) emit(loadfile(name, "t"))
+os.remove(name)
+emit(#string.rep("ab", 1000, ","), #table.concat({1, 2, 3, "x"}, "--"), string.format("%5d|%-5s|%q", 42, "ab", "q\n"))
+emit(string.unpack("<i4 z s1", string.pack("<i4 z s1", -2, "zed", "s")))
+emit(string.gsub("hello world from lua", "(%w+) (%w+)", "%2 %1", 1), string.find("aXb", "%u"), #string.rep("x", 300):gsub("x", "yy"))
+emit(tostring(12345.678), tostring(-0.0), 2^53 | 0, math.tointeger("8"), #tostring(setmetatable({}, {__tostring = function() return "T" end})))`,
 }
